@@ -1,6 +1,7 @@
 """C05 — frames the RFC forbids are rejected with a protocol error, never delivered; legal ones accepted."""
 import bvsym as sx
 from bvsym import core
+from .envpatch import EnvPatch
 from .common import FakeSock, Obligation, cover, new_ws, quiet_logging, ref_len_field, server_frame
 
 PROPERTY = "C05"
@@ -221,8 +222,8 @@ def p_reconnect(lost):
     b0 = sx.sym_int("b0", 8)
     fin, opcode = b0 >> 7, b0 & 15
     sx.assume(sx.And((b0 >> 4) & 7 == 0, opcode <= 2))
-    real_os = HS.os._real if isinstance(HS.os, FakeOs) else HS.os
-    HS.os = FakeOs(real_os, lambda k: bytes(range(k)))
+    ep = EnvPatch()
+    ep.urandom(lambda k: bytes(range(k)))
     try:
         ws = new_ws(None)
         ws.connect("ws://example.test/a", socket=HandshakeSock(first, []))
@@ -249,7 +250,7 @@ def p_reconnect(lost):
             sx.require(False, "receive on the re-connected object raised %s" % type(e).__name__, lost=lost)
             return
     finally:
-        HS.os = real_os
+        ep.restore()
     if opcode == 0:
         sx.require(res == "proto", "a continuation frame first on a NEW connection of the same object is rejected (no message is in progress)",
                    lost=lost, got=res)
